@@ -18,6 +18,15 @@ import sys
 import time
 
 
+# candidate texts of a `str` argument: every text of length <= 2 over an alphabet that holds the characters the harnesses'
+# classes distinguish (kind letters, P, digits, '_', ':', '#', '-', 'z'), plus longer words that sit on class boundaries
+_ALPHA = "abhopstxzPZ019_:#-"
+STR_CANDIDATES = ([""] + list(_ALPHA) + [a + b for a in _ALPHA for b in _ALPHA] + list("2345678ijklOIyY.,;()[]{}*+@%!?/\\'\" <>=~^$&|")
+                  + ["http", "https", "htt", "P10", "P1a", "1:30", "12:0", "1:3", "Zz9", "a_b", "o2x", "x__", "0000", "240510", "2405",
+                     "abc", "zzz", "a1b2", "o_o", "xx", "oo", "ab:c", "9z9", "_a", "a__b", "zo", ".zo", "a.zo", "a/b", "2024-01-02",
+                     "2024-02-30", "0000-00-00", "----------", "1999-12-31", "240101#01", "000000", "999999", "241301", "240229"])
+
+
 def main():
     mod_path, fname, spec_ = sys.argv[1], sys.argv[2], json.loads(sys.argv[3])
     ranges, cap, seed = spec_.get("ranges"), int(spec_.get("max", 300)), int(spec_.get("seed", 0))
@@ -31,8 +40,8 @@ def main():
     names = list(sig.parameters)
     kinds = [sig.parameters[n].annotation for n in names]
     pres = [ln.strip()[4:].strip() for ln in (fn.__doc__ or "").splitlines() if ln.strip().startswith("pre:")]
-    if any(k not in (int, bool) for k in kinds):
-        print("@@CC " + json.dumps({"error": "not swept: non-int arguments", "runs": 0, "bad": [], "n_bad": 0}))
+    if any(k not in (int, bool, str) for k in kinds):
+        print("@@CC " + json.dumps({"error": "not swept: arguments other than int/bool/str", "runs": 0, "bad": [], "n_bad": 0}))
         return
     if ranges is None:
         ranges = getattr(m, "CC", {}).get(fname)
@@ -52,7 +61,7 @@ def main():
                 unary[used.pop()].append(compile(ast.Expression(t), "<pre>", "eval"))
         doms = []
         for n, kind in zip(names, kinds):
-            base = [0, 1] if kind is bool else list(range(-13, 100))
+            base = [0, 1] if kind is bool else (STR_CANDIDATES if kind is str else list(range(-13, 100)))
             ok = []
             for v in base:
                 try:
